@@ -4,6 +4,7 @@ import (
 	"bytes"
 	"errors"
 	"fmt"
+	"sort"
 	"strings"
 
 	NoKV "github.com/feichai0017/NoKV"
@@ -382,6 +383,53 @@ func runPlain(c *core.Case) {
 		nOps = 40 + rng.Intn(60)
 	}
 	done := 0
+	// "range-batched" datasets: contiguous key ranges are written once each and
+	// pushed down separately, so the deepest level ends up with several
+	// non-overlapping tables (the concatenating level iterator and its
+	// table-selection on Seek are only exercised by such layouts).
+	if cfg.Controlled && c.Idx%6 == 0 {
+		var sorted []ck
+		for _, k := range cks {
+			if k.cf == kv.CFDefault {
+				sorted = append(sorted, k)
+			}
+		}
+		sort.Slice(sorted, func(i, j int) bool { return bytes.Compare(sorted[i].key, sorted[j].key) < 0 })
+		groups := 2 + rng.Intn(2)
+		for g := 0; g < groups && len(sorted) >= groups; g++ {
+			part := sorted[g*len(sorted)/groups : (g+1)*len(sorted)/groups]
+			for j, k := range part {
+				sz := sizes[rng.Intn(len(sizes))]
+				val := dbx.Value(fmt.Sprintf("%d.b%d.%d|", c.Idx, g, j), sz)
+				if werr := env.DB.SetCF(k.cf, k.key, val); werr != nil {
+					c.Inconclusive("Set failed: " + werr.Error())
+					return
+				}
+				m := model[id(k.cf, k.key)]
+				m.val, m.deleted, m.written = val, false, true
+				m.writes++
+				env.Trace = append(env.Trace, dbx.OpRec{Op: "set", CF: k.cf.String(), Key: fmt.Sprintf("%q", k.key), Size: sz})
+			}
+			for _, a := range []string{"rotate-wait", "compact:l0", "compact:ingest-drain"} {
+				if res := env.Action(a); res.Err != nil {
+					c.Inconclusive("maintenance failed: " + res.Err.Error())
+					return
+				}
+			}
+			c.Distinct("layout_shapes", dbx.LayoutShape(env.DB))
+			probes(4)
+			done += 4
+		}
+		mainTables := 0
+		for _, t := range env.DB.VerifLSM().VerifLayout().Tables {
+			if !t.Ingest && t.Level > 0 {
+				mainTables++
+			}
+		}
+		c.Max("sorted_run_tables_in_one_level", mainTables)
+		c.Count("datasets.plain_range_batched", 1)
+		nOps = 6
+	}
 	for i := 0; i < nOps; i++ {
 		r := rng.Intn(100)
 		switch {
